@@ -507,3 +507,15 @@ package smtp
 //@   ensures[C14:salted-password] err == nil ==> str(a.saltedPwd) == pbkdf2val(precis(a.password), world.salt, a.iterations)
 //@   ensures[C14:client-final] err == nil && !a.isPlus ==> str(resp) == ("c=biws,r=" + str(a.nonce)) + ",p=" + b64(world.proof)
 //@   ensures[C14:client-final-plus] err == nil && a.isPlus ==> str(resp) == ("c=" + str(a.bindData) + ",r=" + str(a.nonce)) + ",p=" + b64(world.proof)
+
+// ---------------------------------------------------------------------------
+// C03 (continued): nothing but the rendering of the Msg goes into the DATA section
+//
+// d.dwrites (ghost) counts the calls of dataCloser.Write. The writer returned by Data has seen none; in
+// sendSingleMsg it is written to by Msg.WriteTo only (see the assertions in the mail package).
+//@ ghost field dwrites int
+//@ at smtp.dataCloser.Write entry ghost[C03:g] d.dwrites = d.dwrites + 1
+//@ func smtp.dataCloser.Write (p) (n, err)
+//@   ensures[C03:counted] d.dwrites == old(d.dwrites) + 1
+//@ func smtp.Client.Data () (w, err)
+//@   ensures[C03:untouched] err == nil ==> as(w, "*smtp.dataCloser").dwrites == 0
